@@ -819,14 +819,17 @@ def run_sweep(ctx, rep, bins):
     if bad:
         rep.tie("run:extracted-model", False, bad[0])
         return
-    for prof, binpath in bins:
+    for bi, (prof, binpath) in enumerate(bins):
+        # quick: the shards are dealt out between the builds (each boundary goes through exactly one of them; the
+        # descriptors were spread over the shards by size, so every build sees every kind); thorough: every build runs all
+        mine = [k for k in range(len(shards)) if ctx.thorough() or k % len(bins) == bi]
         def impl_one(k):
             inp = "\n".join(desc_line(ds[i]) for i in shards[k]) + "\n"
             return run_bin(binpath, ["sweep", os.path.join(work, "dirs%d" % k), os.path.join(work, "impl-%s%d.txt" % (prof, k))], input=inp, timeout=1500)
         for k in range(len(shards)):
             os.makedirs(os.path.join(work, "dirs%d" % k), exist_ok=True)
         with ThreadPoolExecutor(max_workers=len(shards)) as ex:
-            ires = list(ex.map(impl_one, range(len(shards))))
+            ires = list(ex.map(impl_one, mine))
         bad = [vlib.last_error(o) for rc, o in ires if rc != 0]
         if bad:
             rep.tie("run:h_rolling-sweep:" + prof, False, bad[0])
@@ -835,7 +838,8 @@ def run_sweep(ctx, rep, bins):
         ndiff = 0
         nwrites = 0
         nviol = 0
-        for k in range(len(shards)):
+        nbp = sum(ds[i]["count"] for k in mine for i in shards[k])
+        for k in mine:
             ip, mp = os.path.join(work, "impl-%s%d.txt" % (prof, k)), os.path.join(work, "model%d.txt" % k)
             same = open(ip, "rb").read() == open(mp, "rb").read()
             if not same:
@@ -852,11 +856,11 @@ def run_sweep(ctx, rep, bins):
             nwrites += w
             nviol += v
         rep.evaluations += nwrites
-        rep.traces_validated += len(ds)
+        rep.traces_validated += sum(len(shards[k]) for k in mine)
         rep.count("sweep:writes:" + prof, nwrites)
         rep.tie("correspondence:extracted-model-vs-impl:" + prof, first is None,
-                "%d lines differ over %d boundaries (%d descriptors)" % (ndiff, nb, len(ds)), first)
-        ctx.log("%s: volume run over %d boundaries (%d writes): %d differing lines, %d oracle violations" % (prof, nb, nwrites, ndiff, nviol))
+                "%d lines differ over %d boundaries (%d descriptors)" % (ndiff, nbp, sum(len(shards[k]) for k in mine)), first)
+        ctx.log("%s: volume run over %d boundaries (%d writes): %d differing lines, %d oracle violations" % (prof, nbp, nwrites, ndiff, nviol))
     # the extraction itself against the kernel's evaluation of the same model, on a few short descriptors
     sub = [d for d in ds if d["count"] <= 60][:3] + [dict(ds[0], count=12), dict(ds[-1], count=8)]
     try:
@@ -1015,12 +1019,14 @@ def run(ctx):
         rep.tie("build:h_rolling", False, vlib.last_error(log))
         return rep
     bins = [("debug", paths["h_rolling"])]
-    if ctx.thorough():
-        ok, rpaths, log = cargo_build(ctx, "rolling", ["h_rolling"], release=True)
-        if not ok:
-            rep.tie("build:h_rolling-release", False, vlib.last_error(log))
-            return rep
-        bins.append(("release", rpaths["h_rolling"]))
+    # a build WITHOUT debug assertions in every tier (release: the target dir is shared with the thorough tier, so it is
+    # cached): code that only runs inside debug_assert!/cfg(debug_assertions) is absent there.  Quick runs the exclusive-
+    # interface slice of the cases on it (corpus + the first generated ones) and the volume path; thorough runs everything.
+    ok, rpaths, log = cargo_build(ctx, "rolling", ["h_rolling"], release=True)
+    if not ok:
+        rep.tie("build:h_rolling-release", False, vlib.last_error(log))
+        return rep
+    bins.append(("release", rpaths["h_rolling"]))
     gran, info = probe_fs(ctx, paths["h_rolling"])
     if gran is None:
         rep.tie("fs:created-granularity", False, "created() unsupported or no clock step observed: %s" % info)
@@ -1058,7 +1064,15 @@ def run(ctx):
         rep.tie("model-eval", False, str(ex)[:300])
         model = None
 
+    all_cases = cases
     for prof, binpath in bins:
+        if prof == "release" and not ctx.thorough():
+            xs = [c for c in all_cases if c["iface"] == "x" and not c.get("malformed")]
+            cases = [c for c in xs if c["id"].startswith("corpus:")] + [c for c in xs if not c["id"].startswith("corpus:")][:70]
+            rep.extra["release_slice_cases"] = len(cases)
+        else:
+            cases = all_cases
+        pdet = [c for c in cases if not c.get("race") and not c.get("malformed")]
         obs, err = run_cases(ctx, binpath, cases, gap_ms, prof)
         if err:
             rep.tie("run:h_rolling:" + prof, False, err)
@@ -1134,8 +1148,9 @@ def run(ctx):
                 if d:
                     disagree.append(d)
         if model is not None:
-            rep.tie("correspondence:" + prof, not disagree, "%d of %d cases disagree" % (len(disagree), len(det)), disagree[:1] or None)
+            rep.tie("correspondence:" + prof, not disagree, "%d of %d cases disagree" % (len(disagree), len(pdet)), disagree[:1] or None)
         rep.count("F16-observed:" + prof, f16_seen)
+    cases = all_cases
     # ---- volume path
     run_sweep(ctx, rep, bins)
     rep.extra["corpus_cases"] = ncorp
